@@ -1,5 +1,6 @@
 import Ledger.Driver.CoreH
 import Ledger.Spec.Hist
+import Ledger.Spec.Reads
 
 /-!
 Handler `hist`: a history (`ops`) + a ledger snapshot produced elsewhere → fold the Spec,
@@ -181,6 +182,18 @@ def handleHist : Handler := fun inp out => do
   let c04 := match moves? with
     | none => true
     | some ms => !ms.all (·.2) || pcevInvB (ms.map (·.1))
+  -- C05: the two moves-based read shapes against the journal fold, at every recorded instant
+  let instants := (recs.map (·.timestamp) ++ recs.map (·.insertedAt)).eraseDups
+  let keys := ((allPostings recs).map (·.srcKey) ++ (allPostings recs).map (·.dstKey)).eraseDups
+  let c05 := match moves? with
+    | none => true
+    | some ms =>
+      let rows := ms.map (·.1)
+      instants.all fun t => keys.all fun k =>
+        [DateMode.insertion, DateMode.effective].all (fun mode =>
+          movesWindowVolumes rows { pit := some t } mode k == volumesAt recs { pit := some t } mode k &&
+          movesWindowVolumes rows { oot := some t } mode k == volumesAt recs { oot := some t } mode k) &&
+        (!ms.all (·.2) || effectiveVolumesAt rows k t == volumesAt recs { pit := some t } .effective k)
   let c15 := match txs? with
     | none => true
     | some txs => txs.all fun t =>
@@ -194,19 +207,26 @@ def handleHist : Handler := fun inp out => do
           a.metadata == metaAt w.ledger (.account a.address) none
   let sig := first? [(c01, "C01:snapshot-not-conserved"), (c02, "C02:snapshot-volumes-not-fold"),
     (c03, "C03:snapshot-pcv-not-state-after"), (c03m, "C03:snapshot-moves-not-running"),
-    (c04, "C04:snapshot-pcev-invariant"), (c15, "C15:snapshot-revert-shape"), (c18, "C18:snapshot-accounts")]
+    (c04, "C04:snapshot-pcev-invariant"), (c05, "C05:snapshot-moves-window-not-fold"), (c15, "C15:snapshot-revert-shape"), (c18, "C18:snapshot-accounts")]
   let prop := sig == ""
   let disagreeAt := first? [(outcomeOk, "outcomes"), (avAgree, "accountsVolumes"), (txAgree, "transactions"),
     (movesAgree, "moves"), (acctAgree, "accounts")]
   let opTag : Op → String
     | .tx .. => "op:tx" | .revert .. => "op:revert" | .saveMeta .. => "op:saveMeta" | .deleteMeta .. => "op:deleteMeta"
   let backdated := (recs.zip (recs.drop 1)).any fun (a, b) => b.timestamp < a.timestamp
+  let tiedTs := (recs.map (·.timestamp)).eraseDups.length < recs.length
+  let featTags : List String := match inp.getObjVal? "features" with
+    | .ok (.obj kvs) => if kvs.toList.isEmpty then ["features:default"] else
+        kvs.toList.map fun (k, v) => s!"{k}={v.getStr?.toOption.getD ""}"
+    | _ => ["features:default"]
   pure { model := Json.mkObj [("accountsVolumes", encVols st.accountsVolumes),
                               ("outcomes", jStrs (outcomes.map (·.toString))), ("disagreeAt", disagreeAt)],
          agree, prop, propModel := pcevInvB st.moves && conservedTable st.accountsVolumes,
          nontrivial := recs.length ≥ 1 && (involvedOf (allPostings recs)).length ≥ 3,
          tags := ((ops.map opTag) ++ (outcomes.map fun o => "res:" ++ o.toString)).eraseDups ++
-                 (if backdated then ["back-dated"] else []),
+                 (if backdated then ["back-dated"] else []) ++ (if tiedTs then ["tied-timestamps"] else []) ++
+                 (match moves? with | some ms => if ms.all (·.2) then ["pcev-present"] else ["pcev-null"] | none => ["no-moves-section"]) ++
+                 featTags,
          sig, note := if agree && prop then "" else s!"disagree at: {disagreeAt}; predicate: {sig}" }
 
 /-- Self-check: the snapshot the abstract store itself denotes (used for corpus/selftest lines
